@@ -9,7 +9,7 @@ BUDGET = {
     "quick": dict(shards=16, cases=6400, deadline=70),
     "thorough": dict(shards=16, cases=32000, deadline=1200),
 }
-DECIDING = ["ojn.read"]
+DECIDING = ["ojn.read", "fileio.read_file"]
 RULE = ("Generated OJN byte strings (struct-level builder written from the format layout): 0, 1, 2 and up to 25 tempo events before / at / "
         "after notes, at measure 0 and after the last note, several per package; slot counts 1..192; notes on all seven columns; long "
         "notes within a package, across packages and measures; three levels with different contents, an empty level; random header "
@@ -57,3 +57,6 @@ def run(ctx, case):
         O2JMapSet.read(b)
     except Exception:
         pass
+    if ctx.cur_k is not None and ctx.cur_k % 5 == 1:
+        from rv.monitors import fileio
+        fileio.check_read_file(ctx, "C07", O2JMapSet, b)
